@@ -170,3 +170,51 @@ func TestC18RTOBounds(t *testing.T) {
 		}
 	})
 }
+
+// TestC18SessionRTO: the RTO a session reports stays within bounds under
+// generated lossy traffic (dialled sessions: no-delay mode is set before traffic).
+func TestC18SessionRTO(t *testing.T) {
+	rec := hx.NewRecorder(t)
+	rapid.Check(t, func(rt *rapid.T) {
+		cfg := drawPairCfg(rt, pairGenOpts{ForceDialed: true, Ciphers: []string{"null", "aes-128", "aes-128-gcm"}})
+		fs := sim.DrawFateScript(rt, c01FateOpts)
+		app := drawSessApps(rt, pairMSS(cfg), 20, 60_000)
+		moved, samples := 0, 0
+		rapid.SyncTest(rt, func(rt *rapid.T) {
+			s := sim.NewSessSim(rapid.SampledFrom([]uint32{0, 0xfffffff0, 0x7ffffff0}).Draw(rt, "clock"), cfg.EntropySeed)
+			p, err := sim.NewPair(s, cfg, app)
+			if err != nil {
+				rt.Fatalf("setup: %v", err)
+			}
+			defer p.Finish(nil)
+			setPairLinks(s, p, fs)
+			last := [2]uint32{}
+			p.OnRead = func(r, n int, err error) {
+				for e := 0; e < 2; e++ {
+					lo := uint32(100)
+					if cfg.Opts[e].NoDelay != 0 {
+						lo = 30
+					}
+					rto := p.Sess[e].GetRTO()
+					samples++
+					if rto != last[e] {
+						moved++
+						last[e] = rto
+					}
+					if rto < lo || rto > 60000 {
+						s.Fail("session at end %d reports RTO %d ms, outside [%d, 60000] (srtt %d, rttvar %d)", e, rto, lo, p.Sess[e].GetSRTT(), p.Sess[e].GetSRTTVar())
+					}
+				}
+			}
+			if err := p.Run(fs.EndTime()+300_000, false); err != nil {
+				rt.Fatalf("C18 (session RTO): %v\ncase: %+v", err, describePair(cfg, fs, app))
+			}
+		})
+		rec.Case(hx.Hash64(describePair(cfg, fs, app)), moved > 2, "session_rto_cases")
+		if rec.WantSample() {
+			d := describePair(cfg, fs, app)
+			d["rto_samples"] = samples
+			rec.Sample(d)
+		}
+	})
+}
